@@ -2,6 +2,7 @@ package c14
 
 import (
 	"fmt"
+	"net"
 	"time"
 
 	"verifharness/respc"
@@ -66,5 +67,105 @@ func runHuge(e *env, bin string, senv []string) {
 				map[string]any{"commands": []any{p.what, "sleep 1.2 s", p.check}, "reply": r.String()})
 			return
 		}
+	}
+}
+
+// runPromoted: a follower is restarted (so it starts as a follower, from its
+// configuration) and then promoted with FOLLOW no one. Objects and channels it
+// is given afterwards with a short lifetime must go away like on any leader.
+func runPromoted(e *env, bin string, senv []string) {
+	leader, err := srv.Start(srv.Opts{Bin: bin, Env: senv})
+	if err != nil {
+		e.inconclusive("promoted: " + clip(err.Error(), 200))
+		return
+	}
+	defer leader.Kill9()
+	follower, err := srv.Start(srv.Opts{Bin: bin, Env: senv})
+	if err != nil {
+		e.inconclusive("promoted: " + clip(err.Error(), 200))
+		return
+	}
+	defer func() { follower.Kill9() }()
+	lc, err := respc.Dial(leader.Addr(), 5*time.Second)
+	if err != nil {
+		e.inconclusive("promoted: " + err.Error())
+		return
+	}
+	defer lc.Close()
+	lc.Do("SET", "kp", "keep", "POINT", "1", "1")
+	fc, err := respc.Dial(follower.Addr(), 5*time.Second)
+	if err != nil {
+		e.inconclusive("promoted: " + err.Error())
+		return
+	}
+	host, port, _ := net.SplitHostPort(leader.Addr())
+	if r, err := fc.Do("FOLLOW", host, port); err != nil || r.IsErr() {
+		fc.Close()
+		e.inconclusive("promoted: FOLLOW failed")
+		return
+	}
+	fc.Close()
+	time.Sleep(1500 * time.Millisecond)
+	if !follower.Term(15 * time.Second) {
+		e.inconclusive("promoted: follower did not stop")
+		return
+	}
+	nf, err := follower.Restart()
+	if err != nil {
+		e.inconclusive("promoted: follower restart: " + clip(err.Error(), 200))
+		return
+	}
+	follower = nf
+	c, err := respc.Dial(follower.Addr(), 5*time.Second)
+	if err != nil {
+		e.inconclusive("promoted: " + err.Error())
+		return
+	}
+	defer c.Close()
+	c.Timeout = 10 * time.Second
+	if r, err := c.Do("FOLLOW", "no", "one"); err != nil || r.IsErr() {
+		e.inconclusive("promoted: FOLLOW no one failed: " + r.String())
+		return
+	}
+	var acked time.Time
+	ok := true
+	for _, cmd := range [][]string{{"SET", "kp", "short", "EX", "0.8", "POINT", "2", "2"}, {"SET", "kp", "str", "EX", "0.8", "STRING", "v"}, {"SETCHAN", "cpromoted", "EX", "0.8", "NEARBY", "kp", "FENCE", "POINT", "1", "1", "100"}} {
+		r, err := c.Do(cmd...)
+		if err != nil || r.IsErr() {
+			ok = false
+		}
+		acked = time.Now()
+	}
+	if !ok {
+		e.inconclusive("promoted: the promoted server refused a write")
+		return
+	}
+	time.Sleep(time.Until(acked.Add(800*time.Millisecond + 5*time.Second)))
+	p1, _ := c.Do("PING")
+	g1, err1 := c.Do("GET", "kp", "short")
+	g2, err2 := c.Do("GET", "kp", "str")
+	ch, err3 := c.Do("CHANS", "cpromoted")
+	keep, _ := c.Do("GET", "kp", "keep")
+	p2, _ := c.Do("PING")
+	if err1 != nil || err2 != nil || err3 != nil || p1.String() != "+PONG" || p2.String() != "+PONG" {
+		e.inconclusive("promoted: reads failed")
+		return
+	}
+	e.ctx.Eval(3)
+	e.ctx.Count("promoted_follower_checks", 3)
+	e.ctx.Distinct("promoted|restart+follow-no-one")
+	var late []string
+	if !g1.Nil {
+		late = append(late, "GET kp short -> "+clip(g1.String(), 60))
+	}
+	if !g2.Nil {
+		late = append(late, "GET kp str -> "+clip(g2.String(), 60))
+	}
+	if len(ch.Arr) > 0 {
+		late = append(late, "CHANS cpromoted still lists the channel")
+	}
+	if len(late) > 0 {
+		e.ctx.Violation("late:promoted-follower", fmt.Sprintf("a follower was restarted and then promoted with FOLLOW no one; objects and a channel set on it with EX 0.8 are still served 5 s after their deadline (kp/keep: %s): %v", clip(keep.String(), 40), late),
+			map[string]any{"scenario": "follower restart, FOLLOW no one, SET ... EX 0.8, SETCHAN ... EX 0.8, reads 5 s after the deadline", "late": late})
 	}
 }
